@@ -55,7 +55,16 @@ class Unfolder:
         inst = z3.substitute(sp.body, *[(c, a) for c, a in zip(sp.consts, app.children())])
         return app == z3.simplify(self.to_uf(inst))
 
-    def attempt(self, pc, goal, depth, timeout_ms):
+    def axioms(self):
+        """Definitions as quantified axioms over the uninterpreted twins, triggered on the application."""
+        out = []
+        for sp in self.specs:
+            app = sp.twin(*sp.consts)
+            body = z3.simplify(self.to_uf(sp.body))
+            out.append(z3.ForAll(list(sp.consts), app == body, patterns=[app]))
+        return out
+
+    def attempt(self, pc, goal, depth, timeout_ms, with_axioms=False):
         hyps = [self.to_uf(p) for p in pc]
         g = self.to_uf(goal)
         acc, seen, done = {}, set(), set()
@@ -75,6 +84,11 @@ class Unfolder:
                 break
         s = z3.Solver()
         s.set("timeout", timeout_ms)
+        if with_axioms:
+            s.set("smt.mbqi", False)
+            s.set("smt.auto_config", False)
+            for a in self.axioms():
+                s.add(a)
         for h in hyps + lemmas:
             s.add(h)
         s.add(z3.Not(g))
@@ -91,6 +105,12 @@ def _discharge(ob, timeout_ms, unfolder=None):
                 break
             if r == z3.unsat:
                 return "proved", f"z3(unfold depth {depth})", (time.time() - t0) * 1000, None
+        if unfolder.specs:
+            try:
+                if unfolder.attempt(ob.pc, ob.goal, 2, min(timeout_ms, 5000), with_axioms=True) == z3.unsat:
+                    return "proved", "z3(definitional axioms, e-matching)", (time.time() - t0) * 1000, None
+            except z3.Z3Exception:
+                pass
     s = z3.Solver()
     s.set("timeout", timeout_ms)
     for p in ob.pc:
